@@ -38,6 +38,7 @@ const c14Nodes = 10
 
 var c14KindNames = map[int]string{0: "add-master", 1: "remove-master", 2: "add-replica", 3: "remove-replica", 4: "move-range", 5: "move-single-slot",
 	6: "failover", 7: "reparent-replica", 8: "flag-node", 9: "unflag-all", 10: "link-down", 11: "heal-info", 12: "addr-form", 13: "migration-markers",
+	14: "two-changes-with-a-late-probe-reply",
 	20: "unusable-error-reply", 21: "unusable-nil-reply", 22: "unusable-oversized", 23: "unusable-short-lines"}
 
 func c14Gen(t *rapid.T) c14Case {
@@ -64,7 +65,7 @@ func c14Gen(t *rapid.T) c14Case {
 		c.Init.Reps[0]++
 	}
 	n := rapid.IntRange(2, 6).Draw(t, "nsteps")
-	kinds := []int{0, 1, 2, 2, 3, 4, 4, 5, 6, 6, 7, 7, 8, 9, 10, 11, 12, 13, 20, 21, 22, 23}
+	kinds := []int{0, 1, 2, 2, 3, 4, 4, 5, 6, 6, 7, 7, 8, 9, 10, 11, 12, 13, 14, 14, 20, 21, 22, 23}
 	for i := 0; i < n; i++ {
 		c.Steps = append(c.Steps, c14Step{Kind: rapid.SampledFrom(kinds).Draw(t, "kind"), A: rapid.IntRange(0, 1000).Draw(t, "a"), B: rapid.IntRange(0, 1000).Draw(t, "b"), C: rapid.IntRange(0, 16383).Draw(t, "c")})
 	}
@@ -562,6 +563,61 @@ func c14Exec(c *c14Case) ([]Discrepancy, []string) {
 			m.topo.Clone().Install(cl)
 			continue
 		}
+		if s.Kind == 14 {
+			// two valid changes in a row; the probe answered with the first description is late and reaches the
+			// proxy right before the probe answered with the second one
+			ab := []int{4, 5, 6, 7, 8, 4, 6, 7}
+			before := m.topo.Clone()
+			d1 := m.apply(c14Step{Kind: ab[s.A%len(ab)], A: s.B, B: s.C, C: s.C})
+			if d1 == "" || m.countable() < 3 {
+				m.topo = before
+				trace = append(trace, fmt.Sprintf("step %d: %s not applicable, skipped", si, c14KindNames[s.Kind]))
+				continue
+			}
+			gs := &gateSet{}
+			cl.SetProbeGate(func() <-chan struct{} { return gs.add(time.Now().UnixNano()) })
+			m.syncInfo()
+			m.topo.Clone().Install(cl)
+			waitHeld := func(n int) bool {
+				for i := 0; i < 600; i++ {
+					if total, _ := gs.counts(); total >= n {
+						return true
+					}
+					time.Sleep(5 * time.Millisecond)
+				}
+				return false
+			}
+			ok1 := waitHeld(1)
+			mid := m.topo.Clone()
+			d2 := m.apply(c14Step{Kind: ab[s.B%len(ab)], A: s.C, B: s.A, C: (s.C * 7) % 16384})
+			if d2 == "" || m.countable() < 3 {
+				m.topo = mid
+				d2 = "(no second change)"
+			}
+			m.syncInfo()
+			m.topo.Clone().Install(cl)
+			held, _ := gs.counts()
+			ok2 := waitHeld(held + 1)
+			cl.SetProbeGate(nil)
+			// deliver them in arrival order, a few milliseconds apart
+			for {
+				if !gs.releaseNth(0) {
+					break
+				}
+				time.Sleep(3 * time.Millisecond)
+			}
+			gs.releaseAll()
+			desc := fmt.Sprintf("%s; then %s; late probe replies delivered back to back (held %v/%v)", d1, d2, ok1, ok2)
+			trace = append(trace, fmt.Sprintf("step %d: %s", si, desc))
+			expected = m.topo.Expected(m.excluded())
+			slots := c14Slots(prevTopo, mid, m.topo)
+			if msg := c14Converge(f, expected, slots, &round, 10*time.Second); msg != "" {
+				ds := f.checkAlive("C14", nil)
+				return append(ds, disc("C14/not-converged-after-back-to-back-replies", "10 s after step %d (%s) the routing still differs from the latest description: %s", si, desc, msg)), trace
+			}
+			prevTopo = m.topo.Clone()
+			continue
+		}
 		desc := m.apply(s)
 		if desc == "" {
 			trace = append(trace, fmt.Sprintf("step %d: %s not applicable, skipped", si, c14KindNames[s.Kind]))
@@ -625,7 +681,7 @@ func c14Classify(c *c14Case) (bool, []string) {
 			nt = true
 			cls = append(cls, "valid-after-unusable")
 		}
-		if s.Kind == 1 || s.Kind == 3 || s.Kind == 6 || s.Kind == 7 {
+		if s.Kind == 1 || s.Kind == 3 || s.Kind == 6 || s.Kind == 7 || s.Kind == 14 {
 			nt = true
 		}
 	}
